@@ -111,6 +111,24 @@ def check_vector(v):
         if o != ("ok", vals):
             bad.append({"what": "str_to_int of canonical text does not give the value", "tags": {"op": "str_to_int", "form": "canonical"},
                         "vector": v, "expected": vals, "observed": o})
+    elif mode == "optional":
+        from bionumpy.io.strops import str_to_int_with_missing, str_to_float_with_missing
+        texts = [_txt(t) for t in batch]
+        want = [None if not r[1] else _int(r) for r in v["result"]]
+        if any(w is None for w in want) and any(w is not None for w in want):
+            nt.append(key)
+        o = outcome(lambda: [int(x) for x in str_to_int_with_missing(bnp.as_encoded_array(texts), missing_value=-777).tolist()])
+        n += 1
+        if o != ("ok", [-777 if w is None else w for w in want]):
+            bad.append({"what": "str_to_int_with_missing does not give the values with the missing value for '.' and empty cells", "tags": {"op": "str_to_int_with_missing"},
+                        "vector": v, "expected": [-777 if w is None else w for w in want], "observed": o})
+        plus = any(t.startswith("+") for t in texts)        # an explicit '+' is integer spelling; float texts carry '-' only (Numbers.tla!FloatText)
+        o = ("ok", [None if w is None else float(w) for w in want]) if plus else \
+            outcome(lambda: [None if x != x else float(x) for x in str_to_float_with_missing(bnp.as_encoded_array(texts)).tolist()])
+        n += 1
+        if o != ("ok", [None if w is None else float(w) for w in want]):
+            bad.append({"what": "str_to_float_with_missing does not give the values with NaN for '.' and empty cells", "tags": {"op": "str_to_float_with_missing"},
+                        "vector": v, "expected": [None if w is None else float(w) for w in want], "observed": o})
     elif mode == "parse":
         texts = [_txt(t) for t in batch]
         want = [_int(r) for r in v["result"]]
@@ -190,6 +208,7 @@ def run(ctx):
     vectors = []
     plans = [("format", {"MaxBatch": 2, "Ks": [0, 1, 2, 9, 14, 15, 16, 17, 18] if quick else list(range(0, 19)), "MaxDigits": 3}),
              ("parse", {"MaxBatch": 2, "Ks": [0], "MaxDigits": 3 if quick else 4}),
+             ("optional", {"MaxBatch": 3, "Ks": [0], "MaxDigits": 2}),
              ("float", {"MaxBatch": 1 if quick else 2, "Ks": [0], "MaxDigits": 1})]
     if not quick:
         plans.append(("format", {"MaxBatch": 3, "Ks": [0, 2, 15, 18], "MaxDigits": 1}))
